@@ -100,6 +100,37 @@ def pair(op, f, a, b):
 
 
 def first_l(op, f, l, r):
+    """descend on the left operand only.  Two derivations justify the same entries; the first whose facts the path examined
+    is used: A — by the presence pattern of l's children (a single child is paired whatever its side; pair() then sees
+    a disjoint pair); B — only the child on r's side matters when the other side is dropped anyway."""
+    try:
+        return first_l_A(op, f, l, r)
+    except Missing as m:
+        if op != "intersection":
+            raise
+        try:
+            c = f.child(f.tl, l, "right" if f.side(f.tl, l, f.tr, r) else "left")
+            return [] if c is None else pair(op, f, c, r)
+        except Missing:
+            raise m
+
+
+def first_r(op, f, l, r):
+    try:
+        return first_r_A(op, f, l, r)
+    except Missing as m:
+        if op == "union":
+            raise
+        try:
+            c = f.child(f.tr, r, "right" if f.side(f.tr, r, f.tl, l) else "left")
+            if c is None:
+                return [("ol", l)] if op in ("difference", "covering") else []
+            return pair(op, f, l, c)
+        except Missing:
+            raise m
+
+
+def first_l_A(op, f, l, r):
     ll, lr = f.child(f.tl, l, "left"), f.child(f.tl, l, "right")
     if ll is None and lr is None:
         return [("orr", r)] if op == "union" else []
@@ -113,7 +144,7 @@ def first_l(op, f, l, r):
     return ([("ol", lr)] if keep else []) + pair(op, f, ll, r)
 
 
-def first_r(op, f, l, r):
+def first_r_A(op, f, l, r):
     rl, rr = f.child(f.tr, r, "left"), f.child(f.tr, r, "right")
     if rl is None and rr is None:
         return [("ol", l)] if op in ("union", "difference", "covering") else []
@@ -646,24 +677,30 @@ def check_partition(rep, F, rule, op, it_short, kind, p, lpm):
     names = OPS[op]["names"]
     where = "%s[%s]" % (it_short, names[kind])
     ins = C.inputs_str(p, 14)
+    consumed_l = kind in ("both", "fl", "ol")
+    consumed_r = kind in ("both", "fr", "orr")
+    rem_l, rem_r = [], []
     try:
-        consumed_l = kind in ("both", "fl", "ol")
-        consumed_r = kind in ("both", "fr", "orr")
-        rem_l, rem_r = [], []
+        if op == "covering" and kind in ("both", "fr") and f.valued(f.tr, "r"):
+            return      # covered: the whole left sub-tree is skipped by definition
+    except Missing:
+        return          # reported by the table comparison as an unjustified decision
+    try:
         if kind in ("both", "fl", "fr", "ol"):
             if consumed_l:
                 rem_l += [c for c in (f.child(f.tl, "l", "left"), f.child(f.tl, "l", "right")) if c]
             else:
                 rem_l.append("l")
-        if kind in ("both", "fl", "fr", "orr"):
+    except Missing:
+        return
+    try:
+        if op == "union" and kind in ("both", "fl", "fr", "orr"):
             if consumed_r:
                 rem_r += [c for c in (f.child(f.tr, "r", "left"), f.child(f.tr, "r", "right")) if c]
             else:
                 rem_r.append("r")
-        if op == "covering" and kind in ("both", "fr") and f.valued(f.tr, "r"):
-            return      # covered: the whole left sub-tree is skipped by definition
     except Missing:
-        return          # reported by the table comparison as an unjustified decision
+        return
     got_l, got_r = [], []
     for e, _, _ in pushes_of(p, lpm):
         en = entry_nodes(op, e)
